@@ -1488,6 +1488,15 @@ class BuilderSim:
                 return
         i = ch.draw(len(a.nodes) - 1, "order-src")
         j = i + 1 + ch.draw(len(a.nodes) - 1 - i, "order-dst")
+        special = [k for k, n in enumerate(a.nodes) if type(self.hugr[n].op).__name__ in ("Call", "LoadFunc", "LoadConst", "CallIndirect")]
+        if special and ch.coin(1, 3, "order-edge-at-a-call-like-node"):
+            # nodes whose order port does not simply follow their value ports (static input, instantiated signature)
+            k = ch.pick(special, "call-like")
+            if k > 0 and (k == len(a.nodes) - 1 or ch.coin(1, 2, "as-target")):
+                i, j = ch.draw(k, "order-src"), k
+            elif k < len(a.nodes) - 1:
+                i, j = k, k + 1 + ch.draw(len(a.nodes) - 1 - k, "order-dst")
+            self.ctx.probe("state_order_at_call_like_node")
         src, dst = a.nodes[i], a.nodes[j]
         if src.idx == dst.idx or self.reaches(a, dst.idx, src.idx):
             self.ctx.ev(a.id, "noop")
@@ -1504,6 +1513,9 @@ class BuilderSim:
             self.ctx.ev(a.id, "noop")
             return
         f = ch.pick(fs, "callee")
+        polys = [x for x in fs if x["sig"] is not None and x["sig"].params]
+        if polys and ch.coin(1, 2, "prefer-polymorphic-callee"):
+            f = ch.pick(polys, "poly-callee")
         sig = f["sig"]
         inst, targs = self.instantiate(f)
         if f["actor"] is not None and f["actor"] is a.func_root:
@@ -1541,6 +1553,13 @@ class BuilderSim:
         self.ctx.probe("call")
         if sig.params:
             self.ctx.probe("poly_call")
+        if len(a.nodes) >= 3 and ch.coin(1, 5, "order-edge-into-the-new-call"):
+            # a state-order edge on the call itself (nothing follows the new node yet: no cycle)
+            src = a.nodes[ch.draw(len(a.nodes) - 1, "order-src")]
+            if src.idx != n.idx:
+                a.call("add_state_order", a.b.add_state_order, src, n)
+                self.dep(a, src.idx, n.idx)
+                self.ctx.probe("state_order_at_call_like_node")
 
     def instantiate(self, f):
         """(instantiation, type_args) by the generator's own substitution."""
@@ -1645,7 +1664,7 @@ class ModuleCtl:
         self.todo -= 1
         self.n += 1
         m = sim.module
-        k = ch.weighted([6, 2, 1, 1, 2 if sim.features.get("poly", True) else 0], "module-item")
+        k = ch.weighted([6, 2, 1, 1, 4 if sim.features.get("poly", True) else 0], "module-item")
         name = sim.func_name(f"f{self.n}")
         if k == 0:  # define a function
             ins = sim.gen_row(3)
